@@ -207,7 +207,13 @@ func (m *UnboundedSegmentedMailbox) Dequeue() *ReceiveContext {
 		m.tail.CompareAndSwap(seg, next)
 		m.head.Store(next)
 		seg.next.Store(nil)
-		segmentPool.Put(seg)
+		// The drained segment is deliberately not returned to segmentPool: a
+		// producer that loaded it as tail before it filled up may still be
+		// about to reserve a slot in it. Once the segment is reset and reused,
+		// possibly by another mailbox, that stale reservation succeeds and
+		// the message is stored in a queue it was never sent to. Left to the
+		// garbage collector, the segment stays full for every stale producer,
+		// which then retries on the current tail.
 		seg = next
 	}
 }
